@@ -613,7 +613,9 @@ func (mw *msgWriter) writeBody(writeFunc func(io.Writer) (int64, error), encodin
 		}
 		return
 	default:
-		encodedWriter = quotedprintable.NewWriter(writer)
+		// Like the quoted-printable output above, the output goes through the buffer: written straight
+		// to the destination it would be neither counted nor would a failing write be noticed
+		encodedWriter = quotedprintable.NewWriter(&writeBuffer)
 	}
 
 	_, err = writeFunc(encodedWriter)
